@@ -3,19 +3,18 @@
 import json, glob, os
 rows = []
 for m in sorted(glob.glob('/verif/seeded/*/meta.json')):
-    d = json.load(open(m)); sid = os.path.basename(os.path.dirname(m))
-    rows.append((sid, d))
+    rows.append((os.path.basename(os.path.dirname(m)), json.load(open(m))))
+def c(s): return str(s).replace('|', '/').replace('\n', ' ')
 out = ["# Seeded defects", "",
-       "Each directory holds `patch.diff` (the change; never committed to /repo), the demonstration",
-       "(`demo.diff`: a test that fails with the change and passes without), `meta.json` and the",
-       "author's `README.md`. Authors were fresh sessions given only the property text and a scratch",
-       "worktree. `tools/seeded_run.sh <id> [Cxx…]` applies the patch to /repo, runs the checks and",
-       "reverts.", "",
-       "| id | property | change | needs, to manifest | existing tests | caught by |", "|---|---|---|---|---|---|"]
+       "Each directory holds `patch.diff` (the change; never committed to /repo), `demo.diff` (a test that",
+       "fails with the change and passes without), `meta.json` and the author's `README.md`. Authors were",
+       "fresh sessions given only the property text and a scratch worktree of /repo. Every change compiles",
+       "and passes the 568 existing `kanidmd_lib` unit tests (confirmed again here, see `checked.confirmed`).",
+       "`tools/seeded_run.sh <id> [Cxx…]` applies the patch to /repo, runs the quick checks and reverts.", "",
+       "| id | change | needs, to manifest | check as first built | now | reported as | what was strengthened |", "|---|---|---|---|---|---|---|"]
 for sid, d in rows:
-    c = d.get('checked', {})
-    caught = c.get('caught_by', '?')
-    out.append("| %s | %s | %s | %s | %s | %s |" % (sid, d.get('property'), d.get('summary','').replace('|','/'),
-               d.get('needs_to_manifest','').replace('|','/'), d.get('existing_tests',''), caught))
-open('/verif/seeded/INDEX.md','w').write("\n".join(out) + "\n")
+    k = d.get('checked', {})
+    out.append("| %s | %s | %s | %s | %s | %s | %s |" % (sid, c(d.get('summary', ''))[:260], c(d.get('needs_to_manifest', ''))[:260],
+               c(k.get('first_built_check', '?')), c(k.get('result', '?')), c(k.get('caught_by', '?')), c(k.get('strengthening', ''))))
+open('/verif/seeded/INDEX.md', 'w').write("\n".join(out) + "\n")
 print(len(rows), "entries")
